@@ -99,6 +99,8 @@ def build(case, want_bases=False):
         else:
             elems = [build_elem(e, pool, core) for e in rows]
         return make_view(elems, mode, la, dt)
+    if case['fn'] == 'identity':
+        return (pool, None, None, (None, None)) if want_bases else (pool, None, None)
     if case['fn'] in ND_FNS:
         a, abase = make_nd(case['na'], case.get('a_view'), pool, core, la, case.get('a_dtype'))
         b, bbase = make_nd(case['nb'], case.get('b_view'), pool, core, la, case.get('b_dtype')) if case.get('nb') else (None, None)
@@ -157,10 +159,30 @@ def seen(x, form):
 def norm_axes(axes, nd):
     return list(range(nd))[::-1] if axes is None else [ax % nd for ax in axes]
 
+ABS_LOG = []      # (name, args, outcome) rows for common.oracle_table: abs() of complex elements = hypot(re, im)
+
+def _rec_abs(x):
+    """stand-in for the builtin abs inside GTC.LU: records abs(complex) as an external hypot call"""
+    r = abs(x)
+    if type(x) is complex:
+        ABS_LOG.append(('hypot', (x.real, x.imag), ('ok', r)))
+    return r
+
 def call_impl(case, a, b):
+    """run the implementation; abs() calls LU.py makes on complex elements are recorded (module global `abs`)"""
+    from GTC import LU
+    LU.abs = _rec_abs
+    try:
+        return _call_impl(case, a, b)
+    finally:
+        try: del LU.abs
+        except AttributeError: pass
+
+def _call_impl(case, a, b):
     import numpy as np
     from GTC import la, LU
     fn = case['fn']
+    if fn == 'identity': return la.identity(case['n'])
     a = _form(a, case.get('a_form')); b = _form(b, case.get('b_form'))
     if fn == 'transposeN':
         axes = None if case.get('axes') is None else tuple(case['axes'])
@@ -195,6 +217,7 @@ def celt(e):
     if isinstance(e, (bool, np.bool_)): return '(@EI NF %s)' % cz(int(e))
     if isinstance(e, numbers.Integral): return '(@EI NF %s)' % cz(int(e))
     if isinstance(e, float): return '(@EN NF %s)' % cf(e)
+    if type(e) is complex: return '(@EC NF %s %s)' % (cf(e.real), cf(e.imag))
     if isinstance(e, lib.UncertainReal):
         return '(@EU NF (mkU %s %s %s %s %s))' % (cf(e._x), cvec(e._u_components), cvec(e._d_components),
                                                    cvec(e._i_components), cnode(e))
@@ -216,6 +239,11 @@ def gen_prelude(rng, case):
     steps = []
     for _ in range(rng.randint(1, 4)):
         t = rng.choice(['a', 'b']) if (case.get('b') is not None or case.get('nb')) else 'a'
+        if rng.random() < 0.15:
+            # the caller builds an identity array and writes into it: la.identity must hand out a fresh array
+            steps.append({'k': 'identity', 'n': rng.choice([case.get('n', 2), case.get('n', 2), rng.randint(1, 4)]),
+                          'idx': [rng.randrange(6), rng.randrange(6)], 'v': rng.choice([0.5, -3.0, 2, 'pool'])})
+            continue
         if rng.random() < 0.2:
             steps.append({'k': 'unary', 't': t, 'on': rng.choice(['arg', 'base']),
                           'f': rng.choice(['neg', 'pos', 'T', 'transpose', 'slice', 'abs', 'sqrt', 'log'])})
@@ -248,6 +276,14 @@ def run_prelude(case, a, b, bases):
     from GTC import la, core
     tags = []
     for st in case.get('prelude') or []:
+        if st['k'] == 'identity':
+            try:
+                t_ = la.identity(st['n']); n_ = st['n']
+                t_[st['idx'][0] % n_, st['idx'][1] % n_] = core.ureal(0.5, 0.05) if st['v'] == 'pool' else st['v']
+                tags.append('pre-identity-written')
+            except Exception as ex:
+                tags.append('pre-raises-' + type(ex).__name__)
+            continue
         arr = {'a': a, 'b': b}[st['t']]
         if st.get('on') == 'base': arr = bases[0 if st['t'] == 'a' else 1]
         if arr is None: continue
@@ -353,6 +389,17 @@ def one_call(case, a, b, bases):
     contents read at this moment.  Returns (gallina term of type Z, info)"""
     fn = case['fn']
     nd = fn in ND_FNS
+    if fn == 'identity':
+        info = {'exn': None, 'args_modified': False, 'shape_problem': None}
+        call = '(CIdentity NF %d%%nat)' % case['n']
+        try:
+            r = call_impl(case, None, None); info['result'] = r
+            expected = '(Ok (%s, [], []))' % crows(rows_of(r))
+        except Unmodelled:
+            raise
+        except Exception as ex:
+            info['exn'] = type(ex).__name__; expected = '(Err %s)' % cexn(type(ex).__name__)
+        return '(check_call NF %s %s)' % (call, expected), info
     if fn in ('matmul', 'at', 'dot', 'dotN', 'matmulN') and b is not None:
         # both operands numeric and one of them floating: numpy multiplies with BLAS, whose accumulation starts from
         # +0.0 -- the sign of a zero result can differ from the object-dot order of the model; such calls (an operand
@@ -375,6 +422,7 @@ def one_call(case, a, b, bases):
     r = None
     try:
         r = call_impl(case, a, b)
+        info['result'] = r
         if not nd:
             R = crows(rows_of(r))
             A2 = crows(rows_of(seen(a, case.get('a_form')))); B2 = crows(rows_of(seen(b, case.get('b_form')))) if b is not None else '[]'
@@ -432,7 +480,7 @@ def one_call(case, a, b, bases):
         elif a.dtype == bool:
             call = '(CBoolDtype NF)'                                 # C15-4: unary + on numpy booleans in copy()
         elif a.dtype.kind in 'iu' and fn in ('inv', 'invab'):
-            checker = 'check_call_int_result []'                     # C15-4: result stored through a float -> int cast
+            checker = 'check_call_int_result TBL'                     # C15-4: result stored through a float -> int cast
     return '(%s %s %s)' % (checker, call, expected), info
 
 # ------------------------------------------------------------------ in-place changes between calls
@@ -442,6 +490,12 @@ def gen_mutations(rng, shape_a, shape_b, kind, npool, oracle_dom=None, exact=Fal
     changes of a that keep it well conditioned are generated."""
     muts = []
     for _ in range(rng.randint(0, 3)):
+        if rng.random() < 0.3:
+            # an in-place write into the RESULT of the previous call (the caller owns it: later calls must not see it)
+            muts.append({'m': rng.choice(['scale_elem', 'set_num', 'set_num', 'scale_row']), 't': 'r',
+                         'idx': [rng.randrange(6) for _ in range(4)], 'c': rng.choice([2.0, -0.5, 3.0]),
+                         'v': rng.choice([7.5, -2.0, 0.5, 11]), 'k': 0})
+            continue
         t = rng.choice(['a', 'b']) if shape_b else 'a'
         shp = shape_a if t == 'a' else shape_b
         if not shp:
@@ -467,7 +521,8 @@ def apply_mutations(muts, arrs, pool):
         x = arrs.get(mu['t'])
         if not isinstance(x, np.ndarray): continue
         try:
-            idx = tuple(mu['idx'][:x.ndim])
+            idx = tuple(i % d for i, d in zip(mu['idx'], x.shape)) if mu['t'] == 'r' else tuple(mu['idx'][:x.ndim])
+            if x.size == 0 or len(idx) < x.ndim: continue
             if mu['m'] == 'scale_elem': x[idx] = x[idx] * mu['c']
             elif mu['m'] == 'set_num': x[idx] = mu['v']
             elif mu['m'] == 'set_pool': x[idx] = pool[mu['k']]
@@ -499,7 +554,9 @@ def case_terms(case):
     info['prelude'] = pre; info['call'] = 0
     out.append((t, info))
     arrs = {'a': a, 'b': b}
+    owned = case['fn'] not in ('transpose', 'transposeN')
     for k, muts in enumerate(case.get('sequence') or []):
+        arrs['r'] = info.get('result') if owned else None
         tags = apply_mutations(muts, arrs, pool)
         t, info = one_call(case, arrs['a'], arrs['b'], bases)
         info['prelude'] = tags + ['repeat-call' if muts else 'repeat-call-unchanged']; info['call'] = k + 1
@@ -510,7 +567,8 @@ HEADER = '''From Coq Require Import ZArith List PrimFloat.
 From GTCV Require Import Num FNum Vector Opres KTypes Kernel LU LUInst.
 Import ListNotations.
 Local Open Scope float_scope.
-Definition NF : Num := FNum [].
+Definition TBL : list oracle_entry := [].
+Definition NF : Num := FNum TBL.
 '''
 
 # ------------------------------------------------------------------ generator
@@ -532,11 +590,27 @@ def gen_pool(rng):
         pool.append([x, u, rng.random() < 0.8])
     return pool
 
+def special_complex(rng, v=None):
+    """complex values with structure: Re = -Im, Re = Im, purely imaginary, (nearly) real, general; |Re| = |v| when given"""
+    k = abs(v) if v else rng.choice([0.5, 1.0, 2.0, 3.0, 0.25, 7.0, round(rng.uniform(0.1, 6), 3)])
+    sg = -1.0 if (v is not None and v < 0) or (v is None and rng.random() < 0.5) else 1.0
+    c = rng.random()
+    if c < 0.30: return ['zc', sg * k, -sg * k]            # Re = -Im : |Re + Im| = 0
+    if c < 0.45: return ['zc', sg * k, sg * k]
+    if c < 0.60: return ['zc', 0.0, sg * k]
+    if c < 0.70: return ['zc', sg * k, 0.0]
+    return ['zc', sg * k, rng.choice([-1.0, 1.0]) * rng.choice([0.5, 1.0, 2.0, round(rng.uniform(0.05, 3), 3)])]
+
 def gen_elem(rng, kind, pool, val=None):
     """one element descriptor of the requested array kind, with value val when given"""
     npool = len(pool)
     if kind == 'int': return ['i', int(round(val)) if val is not None else rng.randint(-9, 9)]
     if kind == 'float': return ['f', val if val is not None else rnd_val(rng)]
+    if kind == 'cplx':
+        c = rng.random()
+        if c < 0.15: return ['f', rng.choice([0.0, 0.0, rnd_val(rng)])]
+        if c < 0.22: return ['i', rng.randint(-3, 3)]
+        return special_complex(rng, val)
     # uncertain / mixed
     c = rng.random()
     if kind == 'mixed' and c < 0.45:
@@ -576,13 +650,17 @@ def gen_matrix_vals(rng, n, style, integer=False):
     return m
 
 KINDS = ['float', 'int', 'unc', 'mixed']
+CORR_KINDS = KINDS + ['cplx']     # plain Python complex elements are modelled; uncertain complex is oracle-only
 FNS = ['solve', 'solve', 'inv', 'det', 'invab', 'matmul', 'at', 'dot', 'transpose', 'dotN', 'dotN', 'matmulN',
-       'transposeN', 'transposeN']
+       'transposeN', 'transposeN', 'identity']
 
 def elem_with_value(rng, kind, pool, v):
     """an element of the array kind whose VALUE is v (so that the pivoting pattern is controlled)"""
     if kind == 'int': return ['i', int(round(v))]
     if kind == 'float': return ['f', v]
+    if kind == 'cplx':
+        if v == 0.0: return rng.choice([['f', 0.0], ['zc', 0.0, 0.0], ['i', 0]])
+        return special_complex(rng, v) if rng.random() < 0.85 else ['f', v]
     c = rng.random()
     if kind == 'mixed' and c < 0.5:
         return ['i', int(round(v))] if (v == round(v) and rng.random() < 0.5) else ['f', v]
@@ -597,10 +675,17 @@ def elem_with_value(rng, kind, pool, v):
 
 def gen_case(rng, ctx, malformed=False):
     fn = rng.choice(FNS)
-    kind = rng.choice(KINDS)
+    kind = rng.choice(CORR_KINDS)
     n = rng.choice([1, 2, 2, 3, 3, 4, 4, 5, 6])
     pool = gen_pool(rng) if kind in ('unc', 'mixed') else []
     case = {'ctx': ctx, 'fn': fn, 'kind': kind, 'n': n, 'pool': pool, 'b': None}
+    if fn == 'identity':
+        case['a'] = None; case['n'] = rng.randint(1, 5); case['style'] = 'identity'
+        if rng.random() < 0.5: case['prelude'] = gen_prelude(rng, case)
+        case['sequence'] = [gen_mutations(rng, [case['n'], case['n']], None, kind, len(pool)) for _ in range(rng.randint(1, 3))]
+        for muts in case['sequence']:
+            for mu in muts: mu['t'] = 'r'; mu['idx'] = (mu['idx'] + [0, 0, 0, 0])[:4]
+        return case
     if fn in ND_FNS:
         if not pool and kind in ('unc', 'mixed'): pool = case['pool'] = gen_pool(rng)
         gen_nd(rng, case, kind, pool, malformed)
@@ -796,6 +881,7 @@ def gen_rhs(rng, kind, pool):
         if kind == 'float' or (kind == 'mixed' and rng.random() < 0.5): return ['f', t]
         pool.append([t, rng.choice([1.0, 0.1]), True]); return ['p', len(pool) - 1]
     if kind == 'float': return ['f', 0.0 if c < 0.25 else rnd_val(rng)]
+    if kind == 'cplx': return ['f', 0.0] if c < 0.2 else gen_elem(rng, kind, pool)
     if c < 0.15:
         pool.append([0.0, rng.choice([1.0, 0.5, 0.1]), True]); return ['p', len(pool) - 1]
     if c < 0.25: return ['f', 0.0] if kind == 'mixed' else ['c', 0.0]
@@ -818,6 +904,7 @@ def classify(case, info):
 def run_corr(rng, ncases, name):
     cases = []; terms = []; infos = []; mism = []
     stats = collections.Counter()
+    del ABS_LOG[:]
     i = 0
     ncalls = 0
     while len(cases) < ncases:
@@ -839,7 +926,9 @@ def run_corr(rng, ncases, name):
                 mism.append({'kind': 'argument-modified', 'case': case, 'call': info['call']})
             if info.get('shape_problem'):
                 mism.append({'kind': 'result-shape', 'what': info['shape_problem'], 'case': case, 'call': info['call']})
-    vals, errors = coq_eval_cases('lu_' + name, HEADER, terms, per_file=28)
+    header = HEADER.replace('list oracle_entry := [].', 'list oracle_entry := %s.' % oracle_table(ABS_LOG))
+    del ABS_LOG[:]
+    vals, errors = coq_eval_cases('lu_' + name, header, terms, per_file=28)
     for e in errors:
         mism.append({'kind': 'coqc-failed', 'file': e['file'], 'rc': e['rc'], 'output': e['output'][-1500:]})
     WHAT = {1: 'result differs', 2: 'argument a after the call differs', 3: 'argument b after the call differs',
@@ -964,8 +1053,15 @@ def gen_oracle_case(rng):
     """well-conditioned systems (row-permuted diagonally dominant), all element kinds incl. complex"""
     tiny = False
     kind = rng.choice(['float', 'float', 'int', 'int', 'unc', 'mixed', 'complex', 'ucomplex'])
-    fn = rng.choice(['solve', 'solve', 'inv', 'det', 'det', 'invab', 'matmul', 'transpose', 'dotN', 'matmulN', 'transposeN'])
+    fn = rng.choice(['solve', 'solve', 'inv', 'inv', 'det', 'det', 'invab', 'matmul', 'transpose', 'dotN', 'matmulN', 'transposeN', 'identity'])
     n = rng.randint(1, 6)
+    if fn == 'identity':
+        case = {'ctx': 77, 'fn': fn, 'kind': 'float', 'n': rng.randint(1, 5), 'pool': [], 'a': None, 'b': None, 'style': 'identity'}
+        if rng.random() < 0.5: case['prelude'] = gen_prelude(rng, case)
+        case['sequence'] = [gen_mutations(rng, [case['n'], case['n']], None, 'float', 0) for _ in range(rng.randint(1, 3))]
+        for muts in case['sequence']:
+            for mu in muts: mu['t'] = 'r'; mu['idx'] = (mu['idx'] + [0, 0, 0, 0])[:4]
+        return case
     if fn in ND_FNS:
         kind = rng.choice(KINDS)
         pool = gen_pool(rng) if kind in ('unc', 'mixed') else []
@@ -989,6 +1085,25 @@ def gen_oracle_case(rng):
         return gen_rhs(rng, base, pool)
     case = {'ctx': 77, 'fn': fn, 'kind': kind, 'n': n, 'pool': pool, 'b': None,
             'a': [[el(v) for v in r] for r in vals]}
+    structured = kind in ('complex', 'ucomplex') and rng.random() < 0.5
+    if structured:
+        # sparse complex matrices with structured entries: each row has ONE dominant element, mostly with Re = -Im
+        # (also Re = Im, purely imaginary, real), exact zeros or small special values elsewhere; rows shuffled, so the
+        # only pivot candidate of a column is such an element
+        rows = []
+        for i in range(n):
+            offs = {j: (None if rng.random() < 0.6 else special_complex(rng, rng.choice([0.25, 0.5, -0.5, 1.0])))
+                    for j in range(n) if j != i}
+            tot = sum(abs(complex(z[1], z[2])) for z in offs.values() if z)
+            c = (tot + rng.choice([1.0, 2.0, 0.5])) * rng.choice([1, -1])
+            d = ['zc', c, -c] if rng.random() < 0.6 else rng.choice([['zc', c, c], ['zc', 0.0, 1.5 * c], ['zc', 1.5 * c, 0.0]])
+            row = [d if j == i else (offs[j] or rng.choice([['f', 0.0], ['i', 0], ['zc', 0.0, 0.0]])) for j in range(n)]
+            if kind == 'ucomplex':
+                row = [(['zu', z[1], z[2], 0.1] if z[0] == 'zc' and rng.random() < 0.5 else z) for z in row]
+            rows.append((i, row))
+        rng.shuffle(rows)
+        case['a'] = [r for _, r in rows]; case['style'] = 'structured-complex'
+        vals = [[1.0 if j == i else 0.0 for j in range(n)] for i, _ in rows]      # for the dominant-column bookkeeping
     if fn == 'solve' and rng.random() < 0.4:
         m = rng.randint(1, 3)
         case['b'] = [[rhs() for _ in range(m)] for _ in range(n)]
@@ -1059,13 +1174,16 @@ def oracle_check(case):
     except Exception:
         return None
     run_prelude(case, a, b, bases)
-    why = _oracle_once(case, pool, a, b, bases, True)
+    box = {}
+    why = _oracle_once(case, pool, a, b, bases, True, box)
     arrs = {'a': a, 'b': b}
+    owned = case['fn'] not in ('transpose', 'transposeN')
     k = 0
     for k, muts in enumerate(case.get('sequence') or [], 1):
         if why is not None: k -= 1; break
+        arrs['r'] = box.get('r') if owned else None
         apply_mutations(muts, arrs, pool)
-        why = _oracle_once(case, pool, arrs['a'], arrs['b'], bases, False)
+        why = _oracle_once(case, pool, arrs['a'], arrs['b'], bases, False, box)
     if why is None: return None
     return dict(case, why=('call %d: ' % k if case.get('sequence') else '') + why,
                 rhs_zero_uncertain=rhs_zero_uncertain(case))
@@ -1108,10 +1226,22 @@ def _nd_spec(fn, a, b):
                 out.append(sop(lambda l: a[ia + (i, l)], lambda l: b[ib + (l, j)], sa[-1]))
     return S + (sa[-2], sb[-1]), out
 
-def _oracle_once(case, pool, a, b, bases, first):
+def _oracle_once(case, pool, a, b, bases, first, box=None):
     import numpy as np
     from GTC import la, LU, lib
     fn = case['fn']
+    if fn == 'identity':
+        try:
+            r = call_impl(case, None, None)
+        except Exception as ex:
+            return 'identity raised %s: %s' % (type(ex).__name__, ex)
+        n = case['n']
+        if box is not None:
+            if box.get('r') is r: return 'la.identity returned the same array object twice'
+            box['r'] = r
+        if _shape(r) != (n, n) or any(type(r[i, j]) is not int or r[i, j] != (1 if i == j else 0) for i in range(n) for j in range(n)):
+            return 'la.identity(%d) is not the identity matrix of ints: %r' % (n, np.asarray(r).tolist())
+        return None
     f32 = 'float32' in (case.get('a_dtype'), case.get('b_dtype'))
     tol = 2e-4 if f32 else 1e-8
     tol12 = 1e-5 if f32 else 1e-12
@@ -1122,6 +1252,7 @@ def _oracle_once(case, pool, a, b, bases, first):
     dtype_clash = fn in ('solve', 'invab') and isinstance(b, np.ndarray) and a.dtype != b.dtype
     try:
         r = call_impl(case, a, b)
+        if box is not None: box['r'] = r
         if dtype_clash: return '%s accepted operands of dtypes %s and %s' % (fn, a.dtype, b.dtype)
     except Exception as ex:
         if dtype_clash and isinstance(ex, AssertionError): return None      # LU.solve / invab: assert a.dtype == b.dtype
